@@ -261,6 +261,22 @@ def patch(name, lab, ename, tier, seed, out):
                         x = xD
                     elif len(D) == 0:
                         x = solve(A, b)
+                    elif (len(Dsel) + 2 * sum(mono)) % 5 == 3:
+                        # the kept set given explicitly, in descending order, without expansion: the caller scatters the
+                        # solution of A[I][:, I] y = b[I] - A[I, D] x[D] back through the SAME index array
+                        Iord = np.setdiff1d(np.arange(basis.N), D)[::-1].copy()
+                        AII, bI = condense(A, b, x=xD, I=Iord, expand=False)
+                        x = xD.copy()
+                        x[Iord] = solve(AII, bI)
+                    elif (len(Dsel) + 2 * sum(mono)) % 5 == 4:
+                        # complex-valued data with the real system matrix: (1+2j) u solves the problem with (1+2j) f, g, u_D
+                        zc = 1.0 + 2.0j
+                        xc = np.asarray(solve(*condense(A, b * zc, x=xD * zc, D=D)))
+                        if not np.iscomplexobj(xc) or np.abs((xc / zc).imag).max() > 1e-9 * (1 + np.abs(xc).max()):
+                            bad('complex-data', "complex-valued data (1+2j)*(f, g, u_D) with the real matrix: the solution is not "
+                                "(1+2j) times the real solution (imaginary part lost?)")
+                            continue
+                        x = (xc / zc).real
                     elif (len(Dsel) + sum(mono)) % 3 == 2:
                         # the same constraint imposed by enforce() on the SAME assembled matrix (which must stay intact for
                         # the following boundary splits)
